@@ -408,10 +408,8 @@ pub fn insert_vertices_on_edge<T: CoordsFloat>(
     }
     // insert new vertices / darts on base_dart1's side
     let mut prev_d = base_dart1;
-    for (&t, &new_d) in midpoint_vertices.iter().zip(darts_fh.iter()) {
-        let new_v = v1 + seg * t;
+    for &new_d in darts_fh {
         try_or_coerce!(cmap.link::<1>(trans, prev_d, new_d), VertexInsertionError);
-        cmap.write_vertex(trans, new_d, new_v)?;
         prev_d = new_d;
     }
     if b1d1_old != NULL_DART_ID {
@@ -443,6 +441,13 @@ pub fn insert_vertices_on_edge<T: CoordsFloat>(
             cmap.link::<2>(trans, prev_d, base_dart1),
             VertexInsertionError
         );
+    }
+
+    // the new vertices are written once the topology is final, under their vertex identifier
+    // (which is the opposite dart when it has the smaller ID)
+    for (&t, &new_d) in midpoint_vertices.iter().zip(darts_fh.iter()) {
+        let vid = cmap.vertex_id_transac(trans, new_d)?;
+        cmap.write_vertex(trans, vid, v1 + seg * t)?;
     }
 
     Ok(())
